@@ -177,9 +177,6 @@ class Rest(Kind):
     def enc(self, v):
         return bytes(v)
 
-    def cls_of(self, v):
-        return 'empty' if not v else None
-
 
 class LV(Kind):
     """length-prefixed octets"""
@@ -208,9 +205,6 @@ class Str(Kind):
     def enc(self, v):
         e = v.encode('utf-8')
         return len(e).to_bytes(self.lw, 'big') + e
-
-    def cls_of(self, v):
-        return 'non-ascii' if any(ord(ch) > 127 for ch in v) else None
 
 
 STR8, STR16 = Str(1), Str(2)
@@ -274,9 +268,6 @@ class U16ListRest(Kind):
 
     def enc(self, v):
         return b''.join(struct.pack('<H', x) for x in v)
-
-    def cls_of(self, v):
-        return f'n={min(len(v), 2)}{"+" if len(v) >= 2 else ""}'
 
 
 class LenValListRest(Kind):
@@ -449,12 +440,22 @@ class Caps(Kind):
     def enc(self, v):
         return b''.join(self.enc_one(c) for c in v)
 
+    @staticmethod
+    def cap_class(c):
+        if c[0] != 'codec':
+            return 'raw'
+        return f'codec-{c[3]}' + ('/media-type-nonzero' if c[1] else '')
+
     def cls_of(self, v):
-        tags = set()
-        for c in v:
-            if c[0] == 'codec':
-                tags.add(f'codec-{c[3]}' + ('/media-type-nonzero' if c[1] else ''))
-        return '+'.join(sorted(tags)) or None
+        """one tag: the class most likely to matter"""
+        tags = [self.cap_class(c) for c in v if c[0] == 'codec']
+        for t in tags:
+            if t.startswith('codec-other'):
+                return 'codec-other'
+        for t in tags:
+            if 'media-type-nonzero' in t:
+                return 'media-type-nonzero'
+        return None
 
 
 class Endpoints(Kind):
